@@ -17,7 +17,8 @@ CHECKS = {
         text=("Store.tla states the acknowledgement contract (refused = no trace, admissible = not refused, resubmission changes and "
               "broadcasts nothing, acked = retrievable/ephemeral/superseded, one broadcast per accept); TLC proves the properties from "
               "the spec exhaustively on MC_Store (both backends, depth 6) and generates every behaviour of Submit/Writer steps to a "
-              "depth over universes with duplicates, forged events, replaceables and deletions; each is run on DBStorage and "
+              "depth over universes with duplicates, forged events, replaceables, deletions and authentic-but-malformed events (class Dubious: "
+              "a deletion with a reference that is not an id, an expiration tag without a value - refusable, but only without a trace); each is run on DBStorage and "
               "LMDBStorage with the full store/queue/broadcast state logged after every step, and TLC validates every trace against "
               "the spec actions and evaluates every property body on every step."),
         technique="TLA+ Store.tla model-checked by TLC; TLC-generated behaviours replayed on the real storage classes; traces validated by TLC (Store_Trace.tla)"),
@@ -27,7 +28,9 @@ CHECKS = {
               "is model-checked on Store.tla and evaluated by TLC on every step of every trace of TLC-generated histories mixing three "
               "authors, own/foreign/unknown/duplicate references, deletions older than / equal to / newer than their targets and "
               "deletions of deletions, targets at the byte-order edges of the deleter's index walk (one second older, ids starting 0xff / 0x00), "
-              "on both backends; every id is afterwards probed through get_event and a REQ by ids. Second engine (LMDB): KvWrite.tla "
+              "on both backends; after every step every event submitted so far is looked up by id through storage.get_event and through "
+              "HTTP GET /e/<id> (the ASGI application built by web.create_app over the same storage), with the id in lower- and upper-case "
+              "hex, and at the end every id also through a REQ by ids (Store!A_C08_GetAgrees: served iff stored). Second engine (LMDB): KvWrite.tla "
               "transcribes the writer's transaction (WriterThread.run / _post_save on top of the scanner of KvScan.tla); TLC model-checks "
               "that it refines the C08 clause (MC_KvWrite; with the seek target as found it yields the counterexample of finding 20) and, "
               "for every recorded write transaction of the real writer, computes the transcription's outcome, compares, and evaluates "
@@ -47,7 +50,8 @@ CHECKS = {
         cat="model_checking", ref="DESIGN.md §5 C17",
         text=("C17_GcExact (a pass at T removes exactly the ephemeral and the expired) is model-checked on Store.tla and evaluated by "
               "TLC on traces of TLC-generated histories with collections at T and T+1 over kinds at the ephemeral boundaries and "
-              "expirations T-1/T/T+1/far/malformed/other digit counts/integer-typed, with the collectors' clock injected; both backends."),
+              "expirations T-1/T/T+1/far/malformed/other digit counts/integer-typed, with the collectors' clock injected; both backends; a "
+              "three-event universe is explored to depth 4 / 6 (collected, submitted again, collected again)."),
         technique="TLA+ Store.tla model-checked by TLC; TLC-generated histories with Gc steps replayed on both backends; traces validated by TLC"),
 }
 
@@ -126,11 +130,11 @@ CHECKS["C06"]["technique"] += "; plus Relay.tla trace validation of the OK frame
 CHECKS["C18"] = dict(
     cat="model_checking", ref="DESIGN.md §5 C18",
     note=("Trusted: TLC. The clock is injected (RateLimiter._timestamp), so time is exact; the deque state is read from "
-          "recent_commands. Bounds: 3 addresses, 2 commands, clock steps {0,1,30,61} s, three rule sets, arrival sequences "
+          "recent_commands. Bounds: 3 addresses, 2 commands, clock steps {0,1,30,61} s, five rule sets (global+ip+specific+exempt; ip only; global+specific; a longer window with a smaller allowance; exemptions beside limiting rules of one command), arrival sequences "
           "exhaustive to depth 3 (quick) / 4 (thorough) plus seeded long runs of 120-300 arrivals."),
     text=("RateLimiter.tla contains a step-for-step transcription of is_limited / evaluate_rules / cleanup and, separately, the "
           "contract of C18 over the history of decisions (window bound, no over-blocking, specific rule overrides, n=-1 exempts, "
-          "bounded state). TLC checks transcription => contract exhaustively (MC_RateLimiter, three rule sets), enumerates every "
+          "bounded state). TLC checks transcription => contract exhaustively (MC_RateLimiter, five rule sets), enumerates every "
           "arrival sequence to a depth, and validates the run of the real class on each of them (decision and complete deque state "
           "after every call) against the transcription while evaluating the contract on every decision. At handler level, Relay.tla's "
           "Limited / RefuseOk actions say what a limited message may do (answered as refused, no other effect); relay schedules run with "
@@ -158,12 +162,17 @@ CHECKS["C03"] = dict(
           "independent of aionostr/rapidjson except that control characters follow the relay's \\u00XX convention and are not used "
           "in C03 universes). The variant classes are a sample of the input language: 18 named mutations (each field changed without "
           "re-signing, re-signed with a wrong / upper-case id, float / string created_at, bool kind, forged / transplanted / short "
-          "delegation tags), singly and in pairs."),
+          "delegation tags, forgeries under a genuine delegation tag, pubkey / sig in upper-case hex or with an embedded blank), singly and in pairs."),
     text=("Store.tla's C03_OnlyAuthentic (store, writer queue and fan-out history contain only events the oracle calls authentic) and "
           "Relay.tla's C03_OnlyAuthenticAccepted are model-checked, and evaluated by TLC on the traces of every forged variant "
-          "submitted through add_event (bulk-load path) on both backends and through EVENT frames of web.start_client with a "
-          "listening subscriber."),
-    technique="TLA+ Store.tla / Relay.tla invariants evaluated by TLC on recorded submissions of forged variants (independent authenticity oracle)")
+          "submitted through add_event on both backends, through EVENT frames of web.start_client with a listening subscriber, and "
+          "through the bulk-load path proper: the repository's command line (`nostr-relay -c <config> load <dump>`) run as a process on "
+          "dumps of the forged / twins / verbatim / malformed universes under three validator configurations (no `validators` key, the "
+          "default listed, listed with others) and two dump formats; the store it leaves is reopened and judged by TLC as one "
+          "Store!Load(seq) step (LoadPosts: the stores that Submit / WriterStep of the single events can produce). Internal service "
+          "events take add_event like any other event (add_service_event signs with the relay's key and calls it); they are exercised by "
+          "the role assignments of C14."),
+    technique="TLA+ Store.tla / Relay.tla invariants evaluated by TLC on recorded submissions of forged variants through add_event, websocket EVENT and the command-line bulk load (Store!Load); independent authenticity oracle")
 CHECKS["C03"]["level_override"] = "exploration"
 
 CHECKS["C10"] = dict(
@@ -199,7 +208,8 @@ CHECKS["C15"] = dict(
     text=("Auth.tla states when an AUTH payload must be accepted, must be refused, and what is left open (exactly 600 s, a good and a "
           "bad instance of one tag); TLC checks C15_OnlyValidAuth, C15_FailedAuthKeepsIdentity, C15_NoCrossReplay over the whole "
           "payload grammar (MC_Auth). Every single and pairwise deviation from a valid payload (and a seeded sample of the product) "
-          "is concretised into a real signed event and sent to Authenticator.authenticate under both relay_urls configurations; "
+          "is concretised into a real signed event (also carrying a genuine NIP-26 delegation by another key: the identity obtained must be the signer's, "
+          "which the recorder projects from the returned token) and sent to Authenticator.authenticate under both relay_urls configurations; "
           "seeded sequences of attempts on two connections with save/query probes run through web.start_client on both backends; "
           "TLC judges every decision and every probe (Auth_Trace.tla)."),
     technique="TLA+ Auth.tla model-checked by TLC; payload grammar concretised and run on the real Authenticator and handler; decisions validated by TLC")
@@ -224,20 +234,26 @@ CHECKS["C16"] = dict(
           "single, full and seeded pipelines: decision, reason and that a refusal leaves no trace. DynLists.tla transcribes the "
           "refresher's set mutations; TLC checks C16_NoEmptyWindow / C16_ListExact over all interleavings with readers "
           "(MC_DynLists; the as-found clear/update sequence gave the counterexample behind the repair) and validates the "
-          "real ListBuilder.run_once, every mutation observed with is_pubkey_allowed asked about every key, against it."),
+          "real ListBuilder.run_once, every mutation observed with is_pubkey_allowed asked about every key, against it. Start-up of "
+          "several worker processes: three children forked from a process that imported the application each run the real "
+          "web.start_mainprocess_tasks over one database; every worker's own copy of the list must be exact (C16_EveryWorkerHasLists)."),
     technique="TLA+ Validators.tla / DynLists.tla; bound-class events and observed refresh mutations of the real code validated by TLC; DynLists model-checked over all interleavings by TLC, its inductive invariant discharged by Apalache")
 
 CHECKS["C04"] = dict(
     cat="exploration", ref="DESIGN.md §5 C04", note=RELAY_NOTE + (" The string domain (sub ids, contents, tag items) is sampled by palettes "
         "(quotes/backslashes, NUL and control characters, non-BMP and bidi code points) and by numbers / booleans / null / nested arrays / "
-        "objects / empty strings / 2^53 as tag items, not enumerated; GET /e/<id> (falcon) is not in the loop, it serves storage.get_event "
-        "whose verbatim identity the store-level checks establish."),
+        "objects / empty strings / 2^53 / upper-case hex as tag items, not enumerated; GET /e/<id> is driven through the ASGI application "
+        "(web.create_app) without a network socket."),
     text=("The recorder parses every frame written by web.start_client with a strict JSON parser and projects it onto the five shapes; an "
           "EVENT frame is accepted only if its subscription id is one the client supplied and its event equals the accepted event in all "
           "seven fields (so id and signature still verify); anything else is a GARBAGE line for which Relay.tla has no action and TLC "
           "reports C04_WellFormedFrame. TLC-simulated schedules run with hostile subscription ids under four universes (plain, quotes, "
-          "NUL/control, unicode palettes; events whose tags carry non-string items) on both backends, stored and live delivery."),
-    technique="TLA+ Relay.tla trace validation by TLC with strict frame projection; palette-driven exploration of ids, contents and tag items")
+          "NUL/control, unicode palettes; events whose tags carry non-string items) on both backends, stored and live delivery. A store-level "
+          "pass submits every event of the hostile universes (five palettes; bare / empty / repeated tag values, upper-case hex items, "
+          "whitespace, composed / decomposed characters) on both backends and looks each up through storage.get_event and HTTP GET /e/<id> "
+          "(lower- and upper-case id) and through a REQ by ids: whatever is served, and whatever the raw store holds, must equal the "
+          "accepted event in all seven fields (Store!A_C04_LookupVerbatim, Garbage)."),
+    technique="TLA+ Relay.tla trace validation by TLC with strict frame projection; TLA+ Store.tla look-up formulas evaluated by TLC on get_event / GET /e/<id> / REQ answers; palette-driven exploration of ids, contents and tag items")
 CHECKS["C04"]["level_override"] = "exploration"
 
 CHECKS["C19"] = dict(
@@ -250,7 +266,8 @@ CHECKS["C19"] = dict(
           "must be accepted), interleaved with a well-behaved connection holding kind- and tag-filter subscriptions whose transcript is compared with the same run without the junk, on both backends; TLC judges "
           "the observations (Junk_Trace.tla). The grammar also contains well-formed commands pipelined in a hostile order (a subscription id "
           "re-used while its query runs, CLOSE / re-REQ bursts, duplicates) and peers that stop reading while answers pile up for them and "
-          "then hang up (answers queued by the handler, by query tasks, by notify tasks)."),
+          "then hang up (answers queued by the handler, by query tasks, by notify tasks), and bursts: the same hostile, correctly signed event 6-12 "
+          "times and runs of different ones before the probes (what one such event costs must not add up)."),
     technique="TLA+ Junk.tla contract evaluated by TLC on recorded handler runs over a grammar of typed frame mutations; differential run for the second connection")
 
 CHECKS["C11"] = dict(
@@ -259,7 +276,7 @@ CHECKS["C11"] = dict(
           "filters ask for, every filter of the grammar is answered over both stores through the REQ path on both backends; TLC "
           "evaluates, per line, the precondition (no event of N matches the filter even loosely; g narrows f; the parts are the "
           "single-value restrictions of one multi-valued condition) and the conclusion (same answer set; subset; union) - the harness "
-          "decides nothing about matching."),
+          "decides nothing about matching. Multi-value ids / authors lists are also sent in every lower / upper-case spelling of their hex digits."),
     technique="TLA+ Pairs_Trace.tla (Unaffected / Monotone / UnionOfSingles over Nostr.tla Matches) evaluated by TLC on paired answers of the real REQ path")
 
 NOT_YET = {}
